@@ -5,6 +5,7 @@ those cases in the evidence, they are never silently dropped from totals.
 
 Case files open N_scope; every Z numeral is written with %Z, every nat with %nat.
 """
+import re as _re
 import datetime as _dt
 import math
 import sys
@@ -157,6 +158,19 @@ def cdatetime_pair(v):
     return False, (v.replace(tzinfo=None) - _EPOCH_NAIVE) // _US
 
 
+def _regex_scope(kt, category=False, text=""):
+    """Regex.v reads the categories \\d \\w (and the boundary \\b) as ASCII; Python's are Unicode-aware for str.  A case that
+    puts a category pattern next to non-ASCII text is outside what the model states (the direct oracles still see it)."""
+    if kt is None:
+        return
+    if category:
+        kt.category_pattern = True
+    if any(ord(c) > 127 for c in text):
+        kt.non_ascii_text = True
+    if getattr(kt, "category_pattern", False) and getattr(kt, "non_ascii_text", False):
+        raise Unmodelled("category pattern (ASCII in Regex.v) with non-ASCII text")
+
+
 def cvalue(v, kt=None, depth=0):
     if kt is None:
         kt = KeyTable()
@@ -175,6 +189,7 @@ def cvalue(v, kt=None, depth=0):
     if isinstance(v, float):
         return f"(VFloat {cfloat(v)})"
     if isinstance(v, str):
+        _regex_scope(kt, text=v)
         return f"(VStr {cstr(v)})"
     if isinstance(v, bytes):
         return f"(VBytes {cbytes(v)})"
@@ -339,6 +354,8 @@ def _cschema(s, kt=None, depth=0):
                 raise Unmodelled("str prop type")
         pat = _g(p, "pattern")
         pats = "None" if pat is Nil else f"(Some ({cstr(pat)}, {cre(pat)}))"
+        if pat is not Nil:
+            _regex_scope(kt, category=bool(_re.search(r"\\[dDwWsSbB]", pat)), text=pat + (_g(p, "value") if _g(p, "value") is not Nil else ""))
         return (f"(SStr {copt(_g(p,'value'), cstr)} {copt(_g(p,'len'), cintv)} "
                 f"{copt(_g(p,'min_len'), cintv)} {copt(_g(p,'max_len'), cintv)} "
                 f"{copt(_g(p,'alphabet'), cstr)} {copt(_g(p,'substr'), cstr)} {pats})")
